@@ -175,11 +175,14 @@ package ecs
 // C12 — subscriptions (the documented rule), shared by ecs and listener
 // ---------------------------------------------------------------------------------------------
 
-//@ pred subRule(trigger event.Subscription, added *Mask, removed *Mask, subs *Mask, oldRel *ID, newRel *ID) bool =
+// subRuleV: the documented rule on values (hasAdded/hasRemoved: whether an added/removed mask is supplied at all)
+//@ pred subRuleV(trigger event.Subscription, added Mask, hasAdded bool, removed Mask, hasRemoved bool, subs *Mask, oldRel *ID, newRel *ID) bool =
 //@   trigger != 0 && (subs == nil
 //@     || ((trigger & event.Relations) != 0 && ((oldRel != nil && specBit(*subs, oldRel.id)) || (newRel != nil && specBit(*subs, newRel.id))))
-//@     || ((trigger & (event.EntityCreated | event.ComponentAdded)) != 0 && added != nil && meets(*subs, *added))
-//@     || ((trigger & (event.EntityRemoved | event.ComponentRemoved)) != 0 && removed != nil && meets(*subs, *removed)))
+//@     || ((trigger & (event.EntityCreated | event.ComponentAdded)) != 0 && hasAdded && meets(*subs, added))
+//@     || ((trigger & (event.EntityRemoved | event.ComponentRemoved)) != 0 && hasRemoved && meets(*subs, removed)))
+//@ pred subRule(trigger event.Subscription, added *Mask, removed *Mask, subs *Mask, oldRel *ID, newRel *ID) bool =
+//@   subRuleV(trigger, *added, added != nil, *removed, removed != nil, subs, oldRel, newRel)
 
 //@ func subscribes(trigger, added, removed, subs, oldRel, newRel) (r)
 //@   props C12 C11
@@ -1116,3 +1119,57 @@ package ecs
 //@   panics_if !(q.access.HasRelationComponent && q.access.RelationComponent.id == comp.id)
 //@   flag panic_clean
 //@   ensures r == q.access.RelationTarget
+
+// ---------------------------------------------------------------------------------------------
+// C11 — event content at the notification sites
+// ---------------------------------------------------------------------------------------------
+// evBits: the type bits of an event as a function of what changed
+//@ if !tiny
+//@ pred maskAndNot(a Mask, b Mask) Mask = mk(Mask, arr(a.bits[0] &^ b.bits[0], a.bits[1] &^ b.bits[1], a.bits[2] &^ b.bits[2], a.bits[3] &^ b.bits[3]))
+//@ endif
+//@ if tiny
+//@ pred maskAndNot(a Mask, b Mask) Mask = mk(Mask, a.bits &^ b.bits)
+//@ endif
+//@ lemma maskAndNotDef(a Mask, b Mask)
+//@   props C11 C04
+//@   ensures forall! i uint8 :: specBit(maskAndNot(a, b), i) == (specBit(a, i) && !specBit(b, i))
+
+//@ pred evBits(created bool, removed bool, compAdded bool, compRemoved bool, relChanged bool, targChanged bool) event.Subscription =
+//@   ite(created, event.EntityCreated, 0) | ite(removed, event.EntityRemoved, 0) | ite(compAdded, event.ComponentAdded, 0)
+//@   | ite(compRemoved, event.ComponentRemoved, 0) | ite(relChanged, event.RelationChanged, 0) | ite(targChanged, event.TargetChanged, 0)
+
+
+// notifyExchange: exactly one Notify iff the listener's rule selects the event, and the event is
+// (Added = new \ old, Removed = old \ new, relation pointers, old target, type bits = kinds of change).
+//@ func World.notifyExchange(w, arch, oldMask, entity, add, rem, oldTarget, oldRel)
+//@   props C11 C12
+//@   requires arch != nil && oldMask != nil && w.listener != nil
+//@   requires oldRel != nil ==> validID(oldRel.id)
+//@   requires validID(arch.archetypeAccess.RelationComponent.id)
+//@   ensures notifyCount[w.listener.val] == old(notifyCount[w.listener.val]) + ite(exchSelected(w, arch, oldMask, len(add), len(rem), oldTarget, oldRel), 1, 0)
+//@   ensures exchSelected(w, arch, oldMask, len(add), len(rem), oldTarget, oldRel) ==>
+//@      notifyLast[w.listener.val] == evtId(mk(EntityEvent, oldRel, exchNewRel(arch), add, rem, maskAndNot(arch.archetypeAccess.Mask, *oldMask), maskAndNot(*oldMask, arch.archetypeAccess.Mask), entity, oldTarget,
+//@           exchBits(arch, len(add), len(rem), oldTarget, oldRel)))
+//@   modifies notifyCount[w.listener.val], notifyLast[w.listener.val]
+
+//@ pred exchNewRel(arch *archetype) *ID = ite(arch.archetypeAccess.HasRelationComponent, &arch.archetypeAccess.RelationComponent, nil)
+//@ pred relDiffers(oldRel *ID, newRel *ID) bool = (oldRel == nil) != (newRel == nil) || (oldRel != nil && newRel != nil && oldRel.id != newRel.id)
+//@ pred exchBits(arch *archetype, nAdd int, nRem int, oldTarget Entity, oldRel *ID) event.Subscription =
+//@   evBits(false, false, nAdd > 0, nRem > 0, relDiffers(oldRel, exchNewRel(arch)), relDiffers(oldRel, exchNewRel(arch)) || oldTarget != arch.archetypeAccess.RelationTarget)
+//@ pred exchSelected(w *World, arch *archetype, oldMask *Mask, nAdd int, nRem int, oldTarget Entity, oldRel *ID) bool =
+//@   subRuleV(lsSubs(w.listener) & exchBits(arch, nAdd, nRem, oldTarget, oldRel), maskAndNot(arch.archetypeAccess.Mask, *oldMask), true, maskAndNot(*oldMask, arch.archetypeAccess.Mask), true,
+//@            lsComps(w.listener), oldRel, exchNewRel(arch))
+
+// exchangeNoNotify moves the entity (unsafe storage): assumed contract for what its callers rely on.
+// A no-op exchange (nothing to add or remove) returns nil for the table and the old mask.
+//@ func World.exchangeNoNotify(w, entity, add, rem, relation, hasRelation, target) (arch, oldMask, oldTarget, oldRel)
+//@   flag trusted may_panic
+//@   ensures len(add) == 0 && len(rem) == 0 ==> arch == nil && oldMask == nil && oldRel == nil
+//@   ensures len(add) > 0 || len(rem) > 0 ==> arch != nil && oldMask != nil && validID(arch.archetypeAccess.RelationComponent.id)
+//@   ensures oldRel != nil ==> validID(oldRel.id)
+//@   ensures w.listener == old(w.listener)
+
+//@ func World.exchange(w, entity, add, rem, relation, hasRelation, target)
+//@   props C11
+//@   flag may_panic noframe
+//@   ensures w.listener == nil ==> notifyCount[w.listener.val] == old(notifyCount[w.listener.val])
